@@ -60,7 +60,7 @@ theorem rdN_link {β : Type} (obs : DecProg.Out → β) (hobs : EofBlind obs) (c
     (h : match readN n s with
       | .ok (b, s') => ∀ st', Same st st' → CD chk s' st' → s' = adv s n → b = s.rest.take n → n ≤ s.rest.length →
           obs (runExact (kD b st') s'.rest) = R
-      | .err e => R = obs (DecProg.fail st (errD e))
+      | .err e => errC (errD e) = e → R = obs (DecProg.fail st (errD e))
       | .panic => True
       | .hang => True) :
     obs (runExact (DecProg.rdN chk n st kD) s.rest) = R := by
@@ -72,7 +72,7 @@ theorem rdN_link {β : Type} (obs : DecProg.Out → β) (hobs : EofBlind obs) (c
     exact h _ ⟨rfl, rfl, rfl, rfl⟩ (hcd.adv n hl) trivial trivial trivial
   · rw [runExact_read_short _ _ _ (by omega)]
     simp only [hl, if_false] at h
-    rw [h]; simp only [runExact]; exact hobs _ _ _ _ rfl
+    rw [h rfl]; simp only [runExact]; exact hobs _ _ _ _ rfl
 
 /-- (D)'s state after a definition record -/
 def defSt (stl : DecProg.St) (header arch mesgNum : Nat) (ft dt : List DecProg.Triplet) : DecProg.St :=
@@ -87,7 +87,7 @@ theorem definition_link {β : Type} (obs : DecProg.Out → β) (hobs : EofBlind 
     (h : match decodeDefinition header s with
       | .ok (s', ev) => ∀ st', CD chk s' st' → Tables s' st' → Follows o s' st' done (pend ++ ev.toList) →
           obs (runExact (k st') s'.rest) = R
-      | .err e => R = obs (DecProg.fail st (errD e))
+      | .err e => errC (errD e) = e → R = obs (DecProg.fail st (errD e))
       | .panic => True
       | .hang => True) :
     obs (runExact (DecProg.definition chk header st k) s.rest) = R := by
@@ -154,7 +154,7 @@ theorem definition_link {β : Type} (obs : DecProg.Out → β) (hobs : EofBlind 
     have hq1 : Quiet' s s1 := by rw [hs1e]; exact Quiet'.adv s 5
     apply rdN_link obs hobs chk (b4 * 3) s1 st1 _ R hcd1 (by simp [reservedbuf]; omega)
     cases hr2 : readN (b4 * 3) s1 with
-    | err e => rw [hr2] at h; simp only at h ⊢; rw [h]; exact congrArg obs (fail_evs _ hs1.evs).symm
+    | err e => rw [hr2] at h; simp only at h ⊢; intro he; rw [h he]; exact congrArg obs (fail_evs _ hs1.evs).symm
     | panic => trivial
     | hang => trivial
     | ok p2 =>
@@ -167,7 +167,7 @@ theorem definition_link {β : Type} (obs : DecProg.Out → β) (hobs : EofBlind 
       rw [parseFieldDefs_eq] at h
       by_cases hany : ((DecProg.triplets fb).any fun t => !DecProg.validBaseType t.2.2) = true
       · simp only [hany, if_true] at h ⊢
-        rw [h]; simp only [runExact, errD]
+        rw [h rfl]; simp only [runExact, errD]
         exact congrArg obs (fail_evs _ hs02.evs)
       · simp only [hany, if_false, Bool.false_eq_true] at h ⊢
         have hdm : (header &&& Fit.Gen.Integ.devDataMask = Fit.Gen.Integ.devDataMask) ↔ (header &&& devDataMask = devDataMask) := Iff.rfl
@@ -177,7 +177,7 @@ theorem definition_link {β : Type} (obs : DecProg.Out → β) (hobs : EofBlind 
           rw [if_pos hdev] at h
           apply rdN_link obs hobs chk 1 s2 st2 _ R hcd2 (by decide)
           cases hr3 : readN 1 s2 with
-          | err e => rw [hr3] at h; simp only at h ⊢; rw [h]; exact congrArg obs (fail_evs _ hs02.evs).symm
+          | err e => rw [hr3] at h; simp only at h ⊢; intro he; rw [h he]; exact congrArg obs (fail_evs _ hs02.evs).symm
           | panic => trivial
           | hang => trivial
           | ok p3 =>
@@ -198,7 +198,7 @@ theorem definition_link {β : Type} (obs : DecProg.Out → β) (hobs : EofBlind 
             have hq3 : Quiet' s s3 := by rw [hs3e]; exact hq2.trans (Quiet'.adv s2 _)
             apply rdN_link obs hobs chk (x * 3) s3 st3 _ R hcd3 (by simp [reservedbuf]; omega)
             cases hr4 : readN (x * 3) s3 with
-            | err e => rw [hr4] at h; simp only at h ⊢; rw [h]; exact congrArg obs (fail_evs _ (hs02.trans hs3).evs).symm
+            | err e => rw [hr4] at h; simp only at h ⊢; intro he; rw [h he]; exact congrArg obs (fail_evs _ (hs02.trans hs3).evs).symm
             | panic => trivial
             | hang => trivial
             | ok p4 =>
@@ -226,7 +226,7 @@ theorem message_link {β : Type} (obs : DecProg.Out → β) (hobs : EofBlind obs
     (h : match decodeMessage s with
       | .ok (s', ev) => ∀ st', CD chk s' st' → Tables s' st' → Follows o s' st' done (pend ++ ev.toList) →
           obs (runExact (k st') s'.rest) = R
-      | .err e => R = obs (DecProg.fail st (errD e))
+      | .err e => errC (errD e) = e → R = obs (DecProg.fail st (errD e))
       | .panic => True
       | .hang => True) :
     obs (runExact (DecProg.message chk st k) s.rest) = R := by
@@ -267,7 +267,7 @@ theorem message_link {β : Type} (obs : DecProg.Out → β) (hobs : EofBlind obs
       rw [if_pos hm] at h
       apply definition_link obs hobs o chk y s1 st1 k R done pend hcd1 hT1 hF1
       cases hd : decodeDefinition y s1 with
-      | err e => rw [hd] at h; simp only at h ⊢; rw [h]; exact congrArg obs (fail_evs _ hs1.evs).symm
+      | err e => rw [hd] at h; simp only at h ⊢; intro he; rw [h he]; exact congrArg obs (fail_evs _ hs1.evs).symm
       | panic => trivial
       | hang => trivial
       | ok p => obtain ⟨s2, ev⟩ := p; rw [hd] at h; exact h
@@ -275,7 +275,7 @@ theorem message_link {β : Type} (obs : DecProg.Out → β) (hobs : EofBlind obs
       rw [if_neg hm] at h
       apply data_link obs hobs o chk y s1 st1 k R done pend hcd1 hT1 hF1 hi1 (by rw [hq1.o]; exact hbt) (by rw [hq1.o]; exact hfd)
       cases hd : decodeData y s1 with
-      | err e => rw [hd] at h; simp only at h ⊢; rw [h]; exact congrArg obs (fail_evs _ hs1.evs).symm
+      | err e => rw [hd] at h; simp only at h ⊢; intro he; rw [h he]; exact congrArg obs (fail_evs _ hs1.evs).symm
       | panic => trivial
       | hang => trivial
       | ok p => obtain ⟨s2, ev⟩ := p; rw [hd] at h; exact h
@@ -297,7 +297,7 @@ theorem messages_link {β : Type} (obs : DecProg.Out → β) (hobs : EofBlind ob
     (match decodeMessages fuelC s with
       | (sf, evs, .ok ()) => ∀ st', CD chk sf st' → Tables sf st' → Follows o sf st' done (pend ++ evs) →
           obs (runExact (k st') sf.rest) = R
-      | (sf, evs, .err e) => ∀ st', Follows o sf st' done (pend ++ evs) → R = obs (DecProg.fail st' (errD e))
+      | (sf, evs, .err e) => ∀ st', Follows o sf st' done (pend ++ evs) → errC (errD e) = e → R = obs (DecProg.fail st' (errD e))
       | (_, _, .panic) => True
       | (_, _, .hang) => True) →
     obs (runExact (DecProg.messages chk ds fuelD st k) s.rest) = R := by
